@@ -159,7 +159,7 @@ class FuncGen:
     # ---------------------------------------------------------------- straight-line pieces
     def gen_int(self):
         r = self.r
-        k = r.below(20)
+        k = r.below(21)
         d = self.ireg()
         if k <= 2:
             self.emit(r.choice(INT3), d, self.isrc(), self.isrc()); self.stat("int3")
@@ -277,6 +277,32 @@ class FuncGen:
                 self.emit("mov", nm, self.isrc())
                 self.emit("mov", d, ("mem", wt, off, base, None, 1))
             self.stat("overlap_access")
+        elif k == 20:
+            # address of a register (ADDR, ADDR8/16/32): accesses of the variable's own width, narrower loads and
+            # narrower stores through the pointer, next to direct uses of the register
+            code, w = r.choice([("addr", 8), ("addr32", 4), ("addr16", 2), ("addr8", 1)])
+            full = {8: ["i64", "u64"], 4: ["i32", "u32"], 2: ["i16", "u16"], 1: ["i8", "u8"]}[w]
+            narrower = [t for t in ["i8", "u8", "i16", "u16", "i32", "u32"] if TSIZE[t] < w]
+            self.emit("mov", "av", self.isrc())
+            self.emit(code, "ap", "av")
+            for _ in range(1 + r.below(3)):
+                kk = r.below(5)
+                if kk == 0:
+                    self.emit("mov", ("mem", r.choice(full), 0, "ap", None, 1), self.isrc())
+                elif kk == 1 and narrower:
+                    self.emit("mov", ("mem", r.choice(narrower), 0, "ap", None, 1), self.isrc())
+                elif kk == 2:
+                    self.emit("mov", self.ireg(), ("mem", r.choice(full), 0, "ap", None, 1))
+                elif kk == 3 and narrower:
+                    self.emit("mov", self.ireg(), ("mem", r.choice(narrower), 0, "ap", None, 1))
+                else:
+                    self.emit("mov", "t1", "ap")          # the address travels through a copy
+                    self.emit("mov", ("mem", r.choice(full), 0, "t1", None, 1), self.isrc())
+            if w == 8:
+                self.emit("mov", d, "av")
+            else:                                          # only the variable's own width is defined
+                self.emit(r.choice(["ext", "uext"]) + str(8 * w), d, "av")
+            self.stat("addr_reg")
         elif k == 19 and self.o["mem"] and self.o["alloca"]:
             # alias-annotated accesses to the alloca block: every word has its own alias name (accesses with
             # different non-zero alias names never overlap: true here), mixed with unannotated accesses to the
@@ -523,7 +549,7 @@ class FuncGen:
             self.emit("fmov", reg, ("f", r.choice([0.0, 1.0, -2.5, 0.125])))
         for reg in LDREGS:
             self.emit("d2ld", reg, r.choice(dsrcs))
-        for reg in ["acc", "t0", "t1", "tx", "tb", "tj"] + LOOPREGS:
+        for reg in ["acc", "t0", "t1", "tx", "tb", "tj", "av", "ap"] + LOOPREGS:
             self.emit("mov", reg, 0)
         self.emit("mov", "fuel", o["fuel"])
         if not self.entry:
@@ -596,10 +622,10 @@ class FuncGen:
                 self.emit("xor", "acc", "acc", ("mem", "i64", k, "tal", None, 1))
         if self.entry:
             header = "i64, p:buf, i64:a0, i64:a1, i64:a2, i64:a3, d:x0, d:x1"
-            locs = [f"i64:{x}" for x in self.ints + ["acc", "t0", "t1", "tx", "tb", "tj", "fuel", "tal"] + LOOPREGS]
+            locs = [f"i64:{x}" for x in self.ints + ["acc", "t0", "t1", "tx", "tb", "tj", "av", "ap", "fuel", "tal"] + LOOPREGS]
         else:
             header = "i64, i64:a0, i64:a1, d:x0"
-            locs = [f"i64:{x}" for x in self.ints + ["acc", "t0", "t1", "tx", "tb", "tj", "fuel", "tal", "buf"] + LOOPREGS]
+            locs = [f"i64:{x}" for x in self.ints + ["acc", "t0", "t1", "tx", "tb", "tj", "av", "ap", "fuel", "tal", "buf"] + LOOPREGS]
         locs += [f"d:{x}" for x in self.dbls + ["dt"]] + [f"f:{x}" for x in self.flts] + [f"ld:{x}" for x in LDREGS]
         self.emit("ret", "acc")
         self.prog.funcs.append((self.fname, header, locs, self.ins))
